@@ -38,6 +38,59 @@ ASSUMPTIONS = [
 SIG_ABSENT = "absent-instrument-lookup-inserts-key"
 
 
+def _public_attrs(obj) -> list[str]:
+    """Names of the public, non-callable attributes of an object: dataclass fields, properties and
+    cached properties alike, whatever they are called (so that attributes added later are read too)."""
+    names = set(n for n in dir(type(obj)) if not n.startswith("_"))
+    names |= set(n for n in getattr(obj, "__dict__", {}) if not n.startswith("_"))
+    out = []
+    for n in sorted(names):
+        cls_attr = getattr(type(obj), n, None)
+        if callable(cls_attr) and not isinstance(cls_attr, (property,)) and not hasattr(cls_attr, "__set_name__"):
+            continue            # plain methods / classmethods / nested classes
+        if isinstance(cls_attr, type):
+            continue
+        out.append(n)
+    return out
+
+
+def _plain(v, depth=0):
+    """A comparable rendering of an attribute value as a CLIENT sees it: iterables are iterated."""
+    import enum
+    if v is None or isinstance(v, (bool, int, float, str, bytes)):
+        return v
+    if isinstance(v, timedelta):
+        return ["td", v.days, v.seconds, v.microseconds]
+    if isinstance(v, enum.Enum):
+        return ["enum", type(v).__name__, v.name]
+    if isinstance(v, dict):
+        return ["dict", [[_plain(k, depth + 1), _plain(x, depth + 1)] for k, x in list(v.items())[:50]]] \
+            if depth < 3 else ["dict", len(v)]
+    if type(v).__module__.startswith("chartparse") and not hasattr(v, "__iter__"):
+        return ["obj", type(v).__name__, str(v)[:160]]
+    if hasattr(v, "__iter__"):
+        if depth >= 3:
+            return ["iter", type(v).__name__]
+        items = []
+        for k, x in enumerate(v):
+            if k >= 50:
+                break
+            items.append(_plain(x, depth + 1))
+        return ["iter", items]
+    return ["other", type(v).__name__]
+
+
+def _read_all(obj) -> dict:
+    """Read every public attribute the way a client would (iterating what is iterable)."""
+    out = {}
+    for n in _public_attrs(obj):
+        try:
+            out[n] = _plain(getattr(obj, n))
+        except Exception as e:  # noqa: BLE001
+            out[n] = ["raises", type(e).__name__]
+    return out
+
+
 class Session:
     """Interpreter of JSON-able operations on a (chart, twin) pair; used live by the state machine and
     by replay."""
@@ -63,6 +116,8 @@ class Session:
             self.chart = None
             return
         self.obs0 = observation(ref)
+        # every public attribute of every object of the untouched third parse, read once
+        self.attrs0 = [_read_all(o) for o in self._objects(ref)]
         # what iteration and rendering expose (order included): taken from the untouched third parse
         self.order0 = self._order(ref)
         self.str0 = [str(ref), repr(ref)]
@@ -86,6 +141,20 @@ class Session:
         for tr in self._tracks():
             ev += list(tr.note_events) + list(tr.star_power_events) + list(tr.track_events)
         return ev
+
+    @staticmethod
+    def _objects(c):
+        """The chart and (a bounded number of) the objects it is made of, in a fixed order."""
+        objs = [c, c.metadata, c.sync_track, c.sync_track.bpm_events, c.global_events_track]
+        objs += list(c.sync_track.bpm_events)[:4] + list(c.sync_track.time_signature_events)[:3] + \
+            list(c.sync_track.anchor_events)[:2]
+        g = c.global_events_track
+        objs += list(g.text_events)[:2] + list(g.section_events)[:2] + list(g.lyric_events)[:2]
+        for inner in c.instrument_tracks.values():
+            for tr in inner.values():
+                objs.append(tr)
+                objs += list(tr.note_events)[:12] + list(tr.star_power_events)[:3] + list(tr.track_events)[:2]
+        return objs[:120]
 
     def rc(self):
         return {"spec": self.spec, "ops": list(self.ops)}
@@ -196,6 +265,17 @@ class Session:
                         sp.end_tick
                         sp.tick_is_during_event(k)
                         sp.tick_is_after_event(k)
+            elif name == "attrs":
+                # a generic dump of an object (debugger, serializer, test helper): every public attribute
+                # is read, whatever is iterable is iterated -- twice, as two clients would
+                _, k = op
+                objs = self._objects(c)
+                for j in (k, k + 1, k * 7 + 3):
+                    _read_all(objs[j % len(objs)])
+                    _read_all(objs[j % len(objs)])
+                if k % 5 == 0:
+                    for o in objs:
+                        _read_all(o)
             elif name == "iterate":
                 _, k = op
                 bpm = c.sync_track.bpm_events
@@ -289,6 +369,13 @@ class Session:
         if len(self.ops) % 3 == 0 and [str(c), repr(c)] != self.str0:
             self.ctx.fail("observation-changed", f"after {self.ops[-1] if self.ops else 'parsing'}: str()/repr() "
                                                  f"of the chart changed", self.rc())
+        if self.ops and self.ops[-1][0] in ("attrs", "derived", "render", "compare") or len(self.ops) % 4 == 0:
+            now = [_read_all(o) for o in self._objects(c)]
+            if now != self.attrs0:
+                d = diff_paths(self.attrs0, now)
+                self.ctx.fail("observation-changed", f"after {self.ops[-1] if self.ops else 'parsing'}: public "
+                                                     f"attributes read differently than on a chart nobody has "
+                                                     f"touched: {d}", self.rc())
         if not eq:
             self.ctx.fail("twin-equality", f"after {self.ops[-1] if self.ops else 'parsing'}: chart != "
                                            f"identically parsed twin (observations equal)", self.rc())
@@ -412,6 +499,10 @@ def drive_machine(ctx: Ctx) -> None:
             self._do(["iterate", k])
 
         @rule(k=st.integers(0, 200))
+        def attrs(self, k):
+            self._do(["attrs", k])
+
+        @rule(k=st.integers(0, 200))
         def setattr_(self, k):
             self._do(["setattr", k])
 
@@ -440,6 +531,7 @@ def fixed_cases(ctx: Ctx):
         ops.append(["getitem", ii, ii % 4])
         ops.append(["nps", ii, (ii + 1) % 4, ["none", "tick", "tick_tick", "time", "time_time"][ii % 5], 0, 100])
         ops.append(["mapping_read", ii])
+    ops += [["attrs", 0], ["attrs", 3], ["attrs", 5], ["attrs", 11], ["attrs", 20]]
     ops += [["query", -1, None], ["query", 5, 0], ["query", 5, 1], ["query", 500, 1], ["query", 500, 2],
             ["render", 0], ["render", 7], ["compare", 3], ["hash", 2], ["derived", 1], ["iterate", 1],
             ["setattr", 0], ["setattr", 3], ["setattr", 11], ["nps", 0, 3, "tick_tick", 30, 30],
